@@ -259,7 +259,7 @@ def check_moves(db, rep):
             # the callback now drives the new object's views
             numeqn = sm.field(new, 'sys').fields['dimension'].value
             yin = Region('yin', numeqn, lambda k: Poly.var('Y%d' % k), 'heap')
-            yout = Region('yout', numeqn, None, 'heap')
+            yout = Region('yout', numeqn, lambda k: Poly.var('STALE%d' % k), 'heap')
             it.call(fR, None, [Poly.var('tau'), Ptr(yin, 0), Ptr(yout, 0), sm.field(new, 'sys').fields['params'].value])
             if not new.value.fields['t'].value.equals(Poly.var('tau')):
                 bad = 'callback after the move does not act on the new object'
